@@ -1,8 +1,8 @@
 /-
   Depth accounting of `createNode` (property C03).
 
-  * `DKind.depthLimited`, `distConsistent` : the decidable side conditions (evaluated by the
-    harness per grammar).
+  * the decidable side conditions (`DKind.depthLimited`, `distConsistent`, `budgetOK`, ...) live
+    in `Lemmas/DepthDefs.lean`.
   * `Depth.depthP_all` : the budget invariant `ctx.depth + dist ty ≤ maxDepth` at a call of any
     of the five mutually recursive creation functions bounds the depth of what it returns.
 -/
@@ -10,32 +10,8 @@ import GEVerif.Model.Synth
 import GEVerif.Model.Linear
 import GEVerif.Model.TreeOps
 import GEVerif.Lemmas.SynM
+import GEVerif.Lemmas.DepthDefs
 
-namespace GEVerif
-
-/-- the deciders that take a depth limit (`progressive` does not) -/
-def DKind.depthLimited : DKind → Bool
-  | .progressive => false
-  | _ => true
-
-
-/-- The distance table agrees with the class declarations in the direction creation needs:
-every registered class that creation instantiates directly (no registered alternatives) and
-whose distance is finite costs at least one level, and at least one level more than each of
-its field types.  (True of every fixpoint of the distance equations, see `isFixpoint`.) -/
-def distConsistent (g : Grammar) : Bool :=
-  g.reg.allNodes.all fun s =>
-    match s with
-    | .cls n =>
-      (g.altsOf n).isSome ||
-      !(decide (lookupDist g.dist (.cls n) < INF)) ||
-      (decide (1 ≤ lookupDist g.dist (.cls n)) &&
-        (g.cls n).fields.all fun f =>
-          decide (1 + distTy g.e g.dist f.2 ≤ lookupDist g.dist (.cls n)))
-    | _ => true
-
-
-end GEVerif
 
 namespace GEVerif.Depth
 open GEVerif
@@ -544,25 +520,6 @@ end GEVerif.Depth
 
 /-! ### Hereditary budget invariant: stored contexts stay usable (variation sequences) -/
 
-namespace GEVerif
-
-mutual
-/-- every stored synthesis context inside `v` leaves room for what hangs below it: a node of
-class `c` stored at depth `d` has `d + dist c ≤ D` (so creation may be re-entered there) and
-`d + depth ≤ D` -/
-def budgetOK (g : Grammar) (D : Nat) : Val → Bool
-  | .node c d _ args =>
-      decide (d + lookupDist g.dist (.cls c) ≤ D) && decide (d + (1 + Val.depthList args) ≤ D)
-        && budgetOKList g D args
-  | .list d _ vs => decide (d + Val.depthList vs ≤ D) && budgetOKList g D vs
-  | .tuple vs => budgetOKList g D vs
-  | _ => true
-def budgetOKList (g : Grammar) (D : Nat) : List Val → Bool
-  | [] => true
-  | v :: vs => budgetOK g D v && budgetOKList g D vs
-end
-
-end GEVerif
 
 namespace GEVerif.Depth
 open GEVerif
@@ -1179,10 +1136,7 @@ theorem indOK_reachable (g : Grammar) (dec : Decider) (hc : distConsistent g = t
   | crossRight fuel p1 p2 s s' c1 c2 _ _ h ih1 ih2 =>
     exact (indOK_crossover g dec fuel p1 p2 s s' c1 c2 hc hk hD hvalid ih1 ih2 h).2
 
-end GEVerif.Depth
 
-namespace GEVerif.Depth
-open GEVerif
 
 /-! ### A concrete grammar for the non-vacuity examples -/
 
